@@ -1160,12 +1160,15 @@ void TzDevice::exec(const std::vector<std::string>& t, int opIndex, Verdict& v, 
     for (int i = 0; i < kMaxClients && !v.violated; i++) {
       const Client& c = clients[i];
       if (c.d.kind != K_MANUAL) continue;
-      int got = c.tz.getUtcOffset((acetime_t)(opIndex * 7919)).toMinutes();
+      // "always": at any instant, the extremes of acetime_t and the value that doubles as the invalid sentinel included
+      static const int64_t kInstants[] = {0, -2147483648LL, 2147483647LL, -1, 946684800};
+      const acetime_t when = (opIndex % 3 == 0) ? (acetime_t)kInstants[(opIndex / 3) % 5] : (acetime_t)(opIndex * 7919);
+      int got = c.tz.getUtcOffset(when).toMinutes();
       // (a sum that does not fit the int16 minutes of a TimeOffset has no representable "standard plus DST")
       if ((sumFits(c.d.stdMin, c.d.dstMin) && got != c.d.stdMin + c.d.dstMin) || c.tz.getStdOffset().toMinutes() != c.d.stdMin
           || c.tz.getDstOffset().toMinutes() != c.d.dstMin || c.tz.getDeltaOffset(0).toMinutes() != c.d.dstMin) {
-        v.fail("c16-manual-offset", fmt("manual client %d std=%d dst=%d: getUtcOffset=%d getStdOffset=%d getDstOffset=%d",
-            i, c.d.stdMin, c.d.dstMin, got, c.tz.getStdOffset().toMinutes(), c.tz.getDstOffset().toMinutes()), opIndex);
+        v.fail("c16-manual-offset", fmt("manual client %d std=%d dst=%d: getUtcOffset(%ld)=%d getStdOffset=%d getDstOffset=%d",
+            i, c.d.stdMin, c.d.dstMin, (long)when, got, c.tz.getStdOffset().toMinutes(), c.tz.getDstOffset().toMinutes()), opIndex);
       }
     }
   }
